@@ -368,6 +368,9 @@ func (v AudioSamplingRate) String() string {
 // Parse the FLV sampling rate to Hz.
 func (v AudioSamplingRate) ToHz() int {
 	flvSR := []int{5512, 11025, 22050, 44100}
+	if int(v) >= len(flvSR) {
+		return 0
+	}
 	return flvSR[v]
 }
 
@@ -393,8 +396,13 @@ func (v *AudioSamplingRate) From(a aac.SampleRateIndex) {
 
 // Parse the Opus sampling rate to Hz.
 func (v AudioSamplingRate) OpusToHz() int {
-	opusSR := []int{8000, 12000, 16000, 24000, 48000}
-	return opusSR[v]
+	switch v {
+	case AudioSamplingRateNB8kHz, AudioSamplingRateMB12kHz, AudioSamplingRateWB16kHz,
+		AudioSamplingRateSWB24kHz, AudioSamplingRateFB48kHz:
+		// The Opus sampling rate is in kHz.
+		return int(v) * 1000
+	}
+	return 0
 }
 
 // For Opus, convert aac sample rate index to FLV sampling rate.
